@@ -48,6 +48,13 @@ impl InputVariant {
         starter.data.fields = match v.fields {
             syn::Fields::Unit => vec![],
             syn::Fields::Unnamed(ref fields) => {
+                if fields.unnamed.len() > 1 {
+                    return Err(Error::custom(
+                        "Tuple variants with more than one field are not supported",
+                    )
+                    .with_span(&v.fields));
+                }
+
                 let mut items = Vec::with_capacity(fields.unnamed.len());
                 for item in &fields.unnamed {
                     items.push(InputField::from_field(item, parent)?);
